@@ -420,6 +420,18 @@ class Evidence:
             "explanation": "bounded, solver-decided: every obligation is a SAT/SMT verdict over all "
                            "values of the symbolic inputs within the stated bounds",
         }
+        # model_checking keys: states = feasible symbolic paths explored (Engine M) + CBMC properties decided
+        # (Engine K); transitions = solver queries issued (z3 check-sat calls / CBMC property verdicts);
+        # traces_validated_against_impl = native validations performed in this run (real system-call traces
+        # checked against the same predicates, counterexample replays)
+        paths = sum(int(o.get("paths", 0) or 0) for o in self.obligations)
+        cbmc = sum(int(o.get("cbmc_checks", 0) or 0) for o in self.obligations)
+        q = sum(int(o.get("queries", 0) or 0) for o in self.obligations)
+        cov["states"] = max(1, paths + cbmc)
+        cov["transitions"] = max(1, q + cbmc)
+        cov["traces_validated_against_impl"] = int(self.extra.pop("traces_validated_against_impl", 0)) + \
+            sum(1 for o in self.obligations if o.get("replay"))
+        self.extra.pop("_validated_preds", None)
         cov.update(self.extra)
         ev = {
             "property_id": self.prop,
